@@ -2,6 +2,7 @@
 Serves C02 (routing), C06 (established iff upstream), C16 (lifecycle order)."""
 import re
 import z3
+import harness
 from values import Int, Bool, UNIT, Agg, Ref, Opaque, Bytes, SeqV, Future, BV, simp, concrete, fresh_name
 from engine import State, Unsupported
 import contracts as C
@@ -298,7 +299,7 @@ def spec_rule_evaluate(ck):
     if fn is None:
         return
     ex = ck.engine()
-    ex.benign_havoc = re.compile(r'.')     # counters, timers, prometheus: all irrelevant to the verdict
+    ex.benign_havoc = harness.IRRELEVANT     # counters, timers, prometheus: all irrelevant to the verdict
     st = State()
     has_filter = z3.BitVec('rule_has_filter', 64)
     ex.assume(st, z3.ULT(has_filter, BV(2, 64)))
